@@ -710,6 +710,9 @@ func Run(seed int64, n int, outDir string) error {
 			return err
 		}
 	}
+	if err := r.scenarioExactOut(ctx, 2); err != nil {
+		return err
+	}
 	if err := r.scenarioBoundary(ctx, 2); err != nil {
 		return err
 	}
@@ -802,6 +805,8 @@ func Run(seed int64, n int, outDir string) error {
 			} else {
 				r.commit(ctx, p, o)
 			}
+		case w.R.Chance(1, 9) && r.crossingExactOut(ctx, p):
+			// done: exact-out swap across a bound of a position, then its owner claimed
 		case w.R.Chance(1, 9) && r.boundaryGenerated(ctx, p):
 			// done: price parked next to a bound of a position, then that position acted on
 		case w.R.Chance(1, 10) && r.closeSharedBound(ctx, p):
